@@ -767,10 +767,20 @@ class BaseEvent(BaseModel, Generic[T_EventResultType]):
     @property
     def event_bus(self) -> 'EventBus':
         """Get the EventBus that is currently processing this event"""
-        from bubus.service import EventBus, inside_handler_context
+        from bubus.service import EventBus, _current_event_context, _current_handler_id_context, inside_handler_context
 
         if not inside_handler_context.get():
             raise AttributeError('event_bus property can only be accessed from within an event handler')
+
+        # If this is the event being handled right now, the current handler id names the bus that is running the handler
+        # (event_path[-1] is only the bus the event was most recently forwarded to)
+        current_event = _current_event_context.get()
+        current_handler_id = _current_handler_id_context.get()
+        if current_event is not None and current_event.event_id == self.event_id and current_handler_id:
+            current_bus_id = current_handler_id.split('.')[0]
+            for bus in list(EventBus.all_instances):
+                if str(id(bus)) == current_bus_id:
+                    return bus
 
         # The event_path contains all buses this event has passed through
         # The last one in the path is the one currently processing
